@@ -274,6 +274,10 @@ def run_cmd(world, cmd, args, stdin=b'', plan=None, cwd=None, env=None,
     plan = dict(DEFAULT_PLAN, **(plan or {}))
     if getattr(world, 'desc', None) and world.desc.get('drop_caps'):
         plan['drop_caps'] = True      # permissions bite as for an ordinary owner
+    if getattr(world, 'desc', None) and world.desc.get('partition_order_rel') \
+            and not plan.get('partition_order'):
+        plan['partition_order'] = [world.abs(m) for m in
+                                   world.desc['partition_order_rel']]
     if getattr(world, 'desc', None) and world.desc.get('listdir_seed') is not None \
             and plan.get('listdir_seed') is None:
         plan['listdir_seed'] = world.desc['listdir_seed']   # readdir order of this world
@@ -411,6 +415,10 @@ def run_cold(world, cmd, args, stdin=b'', plan=None, cwd=None, env=None,
     plan = dict(DEFAULT_PLAN, **(plan or {}))
     if getattr(world, 'desc', None) and world.desc.get('drop_caps'):
         plan['drop_caps'] = True      # permissions bite as for an ordinary owner
+    if getattr(world, 'desc', None) and world.desc.get('partition_order_rel') \
+            and not plan.get('partition_order'):
+        plan['partition_order'] = [world.abs(m) for m in
+                                   world.desc['partition_order_rel']]
     if getattr(world, 'desc', None) and world.desc.get('listdir_seed') is not None \
             and plan.get('listdir_seed') is None:
         plan['listdir_seed'] = world.desc['listdir_seed']   # readdir order of this world
